@@ -358,21 +358,60 @@ var opKinds = []string{
 	"updates-struct", "save", "updates-map", "create", "update", "updatecolumns-struct", "create-slice",
 	"updates-struct", "updatecolumn", "create-map", "updates-map", "save", "create-batches", "updatecolumns-map",
 	"updates-struct", "create-maps", "update", "save-slice", "save", "create",
+	"firstorcreate-map", "firstorcreate-struct",
 }
 func genOp(rt *rapid.T, m *model) (*op, string) {
 	o := &op{Kind: rapid.SampledFrom(opKinds).Draw(rt, "op")}
 	var selForm string
+	if m.NK == 2 && strings.HasPrefix(o.Kind, "firstorcreate") {
+		// domain: "first" orders by the prioritised key member only; with a composite key the found
+		// record is not determined
+		o.Kind = "updates-map"
+	}
 	switch o.Kind {
+	case "firstorcreate-map", "firstorcreate-struct":
+		// no Select/Omit: they would also narrow what First loads (the found record's key)
+		selForm = "none"
+		o.PK2 = m.revValue(0)
+		o.ExplicitModel = rapid.Bool().Draw(rt, "explicitmodel")
+		o.Cond = genCond(rt, m)
+		found := false
+		for _, r := range m.Rows {
+			row := make([]cell, len(m.Fields))
+			for ci := range m.Fields {
+				row[ci] = m.sentinel(r, ci)
+			}
+			found = found || o.Cond.matches(row)
+		}
+		if !found { // the not-found half (create) is C16's subject
+			o.Cond = &cond{Form: "ids", IDs: []int64{m.Rows[rapid.IntRange(0, len(m.Rows)-1).Draw(rt, "foundrow")].ID, 40}}
+		}
+		if o.Kind == "firstorcreate-map" {
+			o.Map = genKVs(rt, m, true, false, false, 1, "a")
+		} else {
+			o.Struct = genStructVals(rt, m, "a")
+			for i, f := range m.Fields {
+				if f.Auto == "update" {
+					delete(o.Struct, i)
+				}
+			}
+		}
 	case "updates-struct", "updatecolumns-struct":
 		o.Mode = rapid.SampledFrom([]string{"model+value", "model+other", "model+pointer", "pointer", "model+value", "value", "same"}).Draw(rt, "mode")
-		genTarget(rt, m, o)
+		genTarget(rt, m, o, strings.HasPrefix(o.Mode, "model+"))
 		selForm = genSelect(rt, m, o, false)
+		if o.ModelKeys != nil && len(o.Select) == 1 && o.Select[0] == "*" {
+			o.Select, selForm = nil, "none" // "*" needs the value to carry the model's key: impossible for a slice
+			if o.Omit != nil {
+				selForm = "omit"
+			}
+		}
 		o.Struct = genStructVals(rt, m, "v")
 		if o.Mode == "model+other" {
 			o.Other = make([]string, len(m.Fields))
 			for i, f := range m.Fields {
 				o.Other[i] = f.Perm
-				if i > 0 && f.Auto == "" && rapid.Bool().Draw(rt, "otherperm?") {
+				if i >= m.NK && f.Auto == "" && rapid.Bool().Draw(rt, "otherperm?") {
 					o.Other[i] = rapid.SampledFrom(permTags).Draw(rt, "otherperm")
 				}
 			}
@@ -384,11 +423,11 @@ func genOp(rt *rapid.T, m *model) (*op, string) {
 			o.Mode = "pointer"
 		}
 	case "updates-map", "updatecolumns-map":
-		genTarget(rt, m, o)
+		genTarget(rt, m, o, true)
 		selForm = genSelect(rt, m, o, false)
 		o.Map = genKVs(rt, m, o.hooks(), false, true, 1, "m")
 	case "update", "updatecolumn":
-		genTarget(rt, m, o)
+		genTarget(rt, m, o, true)
 		selForm = genSelect(rt, m, o, false)
 		var elig []int
 		for i := m.NK; i < len(m.Fields); i++ {
@@ -422,8 +461,26 @@ func genOp(rt *rapid.T, m *model) (*op, string) {
 }
 
 // genTarget draws model key and/or condition (never neither: that is C09's subject).
-func genTarget(rt *rapid.T, m *model, o *op) {
+func genTarget(rt *rapid.T, m *model, o *op, sliceOK bool) {
 	o.PK2 = m.revValue(0)
+	if sliceOK && rapid.IntRange(0, 5).Draw(rt, "slicemodel") == 0 {
+		// the model value is a slice of key structs: stored keys (for a composite key preferably
+		// differing in both members) and sometimes a key that is not stored
+		n := rapid.IntRange(2, 3).Draw(rt, "nkeys")
+		pool := append([]rowKey(nil), m.Rows...)
+		for len(o.ModelKeys) < n && len(pool) > 0 {
+			k := rapid.IntRange(0, len(pool)-1).Draw(rt, "slicekey")
+			o.ModelKeys = append(o.ModelKeys, rowKey{ID: pool[k].ID, Rev: pool[k].Rev})
+			pool = append(pool[:k], pool[k+1:]...)
+		}
+		if rapid.IntRange(0, 3).Draw(rt, "sliceghost") == 0 {
+			o.ModelKeys = append(o.ModelKeys, rowKey{ID: 50, Rev: m.revValue(1)})
+		}
+		if rapid.IntRange(0, 2).Draw(rt, "slicecond") == 0 {
+			o.Cond = genCond(rt, m)
+		}
+		return
+	}
 	switch rapid.IntRange(0, 9).Draw(rt, "target") {
 	case 0, 1, 2:
 		genKey(rt, m, o)
@@ -659,6 +716,18 @@ func (m *model) newValue(pk int64, pk2 cell, vals map[int]gval) reflect.Value {
 	return p
 }
 
+// modelValue is what the chain passes to Model(): a key struct or a slice of key structs.
+func modelValue(m *model, o *op) interface{} {
+	if o.ModelKeys == nil {
+		return m.newValue(o.PK, o.PK2, nil).Interface()
+	}
+	sl := reflect.New(reflect.SliceOf(m.Typ))
+	for _, k := range o.ModelKeys {
+		sl.Elem().Set(reflect.Append(sl.Elem(), m.newValue(k.ID, k.Rev, nil).Elem()))
+	}
+	return sl.Interface()
+}
+
 func mapOf(m *model, kvs []kv) map[string]interface{} {
 	out := map[string]interface{}{}
 	for _, e := range kvs {
@@ -718,7 +787,7 @@ func run(d *testdb.DB, m *model, o *op) error {
 		var val interface{}
 		switch o.Mode {
 		case "model+value", "model+pointer", "model+other":
-			tx = tx.Model(m.newValue(o.PK, o.PK2, nil).Interface())
+			tx = tx.Model(modelValue(m, o))
 			vk, vk2 := int64(0), m.revValue(0)
 			if len(o.Select) == 1 && o.Select[0] == "*" {
 				vk, vk2 = o.PK, o.PK2 // see genOp: with "*" the separate value carries the model's key
@@ -756,13 +825,22 @@ func run(d *testdb.DB, m *model, o *op) error {
 		}
 		return tx.UpdateColumns(val).Error
 	case "updates-map":
-		return tx.Model(m.newValue(o.PK, o.PK2, nil).Interface()).Updates(mapOf(m, o.Map)).Error
+		return tx.Model(modelValue(m, o)).Updates(mapOf(m, o.Map)).Error
 	case "updatecolumns-map":
-		return tx.Model(m.newValue(o.PK, o.PK2, nil).Interface()).UpdateColumns(mapOf(m, o.Map)).Error
+		return tx.Model(modelValue(m, o)).UpdateColumns(mapOf(m, o.Map)).Error
 	case "update":
-		return tx.Model(m.newValue(o.PK, o.PK2, nil).Interface()).Update(o.Map[0].Key, mapOf(m, o.Map)[o.Map[0].Key]).Error
+		return tx.Model(modelValue(m, o)).Update(o.Map[0].Key, mapOf(m, o.Map)[o.Map[0].Key]).Error
 	case "updatecolumn":
-		return tx.Model(m.newValue(o.PK, o.PK2, nil).Interface()).UpdateColumn(o.Map[0].Key, mapOf(m, o.Map)[o.Map[0].Key]).Error
+		return tx.Model(modelValue(m, o)).UpdateColumn(o.Map[0].Key, mapOf(m, o.Map)[o.Map[0].Key]).Error
+	case "firstorcreate-map", "firstorcreate-struct":
+		if o.ExplicitModel {
+			tx = tx.Model(m.newValue(0, m.revValue(0), nil).Interface())
+		}
+		var assign interface{} = mapOf(m, o.Map)
+		if o.Kind == "firstorcreate-struct" {
+			assign = m.newValue(0, m.revValue(0), o.Struct).Elem().Interface()
+		}
+		return tx.Assign(assign).FirstOrCreate(reflect.New(m.Typ).Interface()).Error
 	case "save":
 		return tx.Save(m.newValue(o.PK, o.PK2, o.Struct).Interface()).Error
 	case "create":
@@ -800,10 +878,10 @@ const ruleText = "C10: a model type built with reflect.StructOf (integer key + 3
 	"optional column: tags, optional default:(expr) tags with the same DEFAULT in the DDL, 0-2 tracked time fields by name or autoUpdateTime/autoCreateTime[:milli|:nano] tag; " +
 	"one model in four has a composite key ID+Rev (integer or string, not auto-incremented) with rows sharing key members and revision zero as an ordinary value) over a table made by raw DDL with a column for every field " +
 	"and 3-6 rows of unique sentinel cells; one write (Updates struct/map, Update, UpdateColumn, UpdateColumns struct/map, Save, Create, Create slice, CreateInBatches, " +
-	"Create map/maps, each create also as upsert DoNothing/UpdateAll/DoUpdates) with a Select/Omit form (none, list by field name or column name, '*', Omit, combinations), " +
-	"zero, non-zero and gorm.Expr values, and a model key (composite: possibly with exactly one zero member) and/or a Where condition; the table after the write must equal, cell by cell, the table predicted by an independent " +
+	"Create map/maps, Save of a slice, each create also as upsert DoNothing/UpdateAll/DoUpdates; FirstOrCreate with Assign(map|struct) on a found record, with and without an explicit zero-key Model()) with a Select/Omit form (none, list by field name or column name, '*', Omit, combinations), " +
+	"zero, non-zero and gorm.Expr values, and a model key (composite: possibly with exactly one zero member; or a slice of 2-4 key structs, Model(&[]T{..})) and/or a Where condition; the table after the write must equal, cell by cell, the table predicted by an independent " +
 	"model of the statement. non-trivial = a field with a restricting tag is given a value, a zero value is given, and the rows the write may touch are a non-empty strict subset; " +
-	"distinct = model + row keys + operation. Not generated (documentation silent): updates with neither key nor condition (C09), key collisions without an OnConflict clause (C05), " +
+	"distinct = model + row keys + operation. Not generated (documentation silent): FirstOrCreate on composite keys, with Select/Omit, or with no matching row (C16), Select('*') with a slice model, updates with neither key nor condition (C09), key collisions without an OnConflict clause (C05), " +
 	"Select('*') with a separate value whose key is zero, a hook-running map update that names a tracked update-time field, a create-from-map key that names an ignored field, " +
 	"rows that propose no column, DoUpdates naming a denied column; batches mixing zero and non-zero values of a default:(expr) column (SQLite has no DEFAULT keyword in VALUES); accepted either way: rows matching only the non-zero member of a partly zero composite key (update paths), the row matching a partly zero composite key exactly under Save (updated, or rejected by the insert path), tracked time cells of created rows that a Select list / a map does not name, and the creation time under UpdateAll"
 
@@ -907,6 +985,9 @@ func analyse(m *model, o *op, selForm string) caseInfo {
 	if o.Conflict != "" {
 		ci.classes["upsert:"+o.Conflict] = true
 	}
+	if o.ExplicitModel {
+		ci.classes["firstorcreate:explicit-model"] = true
+	}
 	if m.NK == 2 {
 		ci.classes["key:composite-"+m.Fields[1].Kind.String()] = true
 		if !o.isCreate() && (o.PK == 0) != isZeroCell(o.PK2) {
@@ -915,6 +996,11 @@ func analyse(m *model, o *op, selForm string) caseInfo {
 	}
 	if !o.isCreate() {
 		switch {
+		case o.ModelKeys != nil:
+			ci.classes["target:key-slice"] = true
+			if o.Cond != nil {
+				ci.classes["target:key-slice+where"] = true
+			}
 		case o.PK != 0 && o.Cond != nil:
 			ci.classes["target:key+where-"+o.Cond.Form] = true
 		case o.PK != 0:
